@@ -135,6 +135,9 @@ def reprObs : Obs → List String
   | .bell => ["L"]
   | .drop k => [s!"D{reprKP k}"]
   | .requeue ks => [s!"Q{reprKPs ks}"]
+  | .cpr (some h) k p => [s!"K{h}[{reprKP k}]{reprKPs p}"]
+  | .cpr none k _ => [s!"KN[{reprKP k}]"]
+  | .cprRaise h k p => [s!"K{h}[{reprKP k}]{reprKPs p}", "R"]
   | .raise h s p => [s!"C{h}{reprKPs s}{reprKPs p}", "R"]
 
 def sameIdx (fl : Array F) (r : F) : Int :=
